@@ -558,6 +558,11 @@ def _selector_rules(ctx, prog, R, sel: FunctionInfo):
         return
     ctx.ok(sel, ret, f"U, Y, S all indexed by {sels[0]}")
     sl = resolve(elts[0]).slice
+    if isinstance(sl, ast.Name):
+        # the selector held in a local: nearest = order[0:n]
+        dd_ = reaching_assignments(prog, sel, sl.id, ret)
+        if len(dd_) == 1:
+            sl = dd_[0]
     if not (isinstance(sl, ast.Subscript) and isinstance(sl.slice, ast.Slice)):
         ctx.fail(sel, ret, "selector is not order[0:n]")
         return
@@ -627,8 +632,15 @@ def _selector_rules(ctx, prog, R, sel: FunctionInfo):
         has_max_clamp = any(call_name(v) in ("np.minimum", "min") and "OPT[n_train_max]" in canon(v) for _l, v, _s in chain)
         has_min_clamp = any(call_name(v) in ("np.max", "np.maximum", "max") and "OPT[n_train_min]" in canon(v) for _l, v, _s in chain)
         last = chain[-1][1] if chain else None
+        from .common import deref_canon as _dc15
+
+        # the number of logged rows may sit in a local (n_logged = X_max_idx + 1): compare the expanded spelling of the
+        # other operand of the minimum
+        last_txt = canon(last) if last is not None else ""
+        if last is not None and call_name(last) in ("np.minimum", "min"):
+            last_txt += " " + " ".join(_dc15(prog, sel, a_) for a_ in last.args if not (isinstance(a_, ast.Name) and a_.id == up.id))
         last_ok = last is not None and call_name(last) in ("np.minimum", "min") and up.id in {n.id for n in ast.walk(last) if isinstance(n, ast.Name)} and (
-            "LOG.X_max_idx + 1" in canon(last) or "(1 + LOG.X_max_idx)" in canon(last) or "LOG.Xn" in canon(last) or "len(" in canon(last) or ".shape[0]" in canon(last)
+            "LOG.X_max_idx + 1" in last_txt or "(1 + LOG.X_max_idx)" in last_txt or "LOG.Xn" in last_txt or "len(" in last_txt or ".shape[0]" in last_txt
         )
         ctx.check(has_max_clamp, sel, chain[0][2] if chain else ret, "n <= n_train_max clamp present", "training-set size is not clamped from above by n_train_max", construct="n_train_max clamp")
         ctx.check(has_min_clamp, sel, chain[0][2] if chain else ret, "n >= n_train_min clamp present", "training-set size is not clamped from below by n_train_min", construct="n_train_min clamp")
